@@ -215,15 +215,25 @@ func sweepPost(c *Check) {
 func monitorFinding(c *Check, jr *JobResult, p *PathRec, what string) {
 	conf := "yes"
 	st := p.Stubs
-	if _, ok := st["uf:x509.CheckSignatureFromKey"]; ok {
-		// handing the signature to the verification routine is itself the observation (C09); that stub does
-		// not make the path unrealisable
+	if _, ok := st["env:time.Now"]; ok {
+		// the clock may show any instant, so a path that read it is realisable whatever it then branched on
 		st = map[string]int{}
 		for k, v := range p.Stubs {
-			if k != "uf:x509.CheckSignatureFromKey" {
+			if k != "env:time.Now" {
 				st[k] = v
 			}
 		}
+	}
+	if _, ok := st["uf:x509.CheckSignatureFromKey"]; ok {
+		// handing the signature to the verification routine is itself the observation (C09); that stub does
+		// not make the path unrealisable
+		st2 := map[string]int{}
+		for k, v := range st {
+			if k != "uf:x509.CheckSignatureFromKey" {
+				st2[k] = v
+			}
+		}
+		st = st2
 	}
 	if usesUnreplayable(st) {
 		conf = "no"
@@ -335,6 +345,11 @@ func init() {
 					s := strings.Trim(sy, "|")
 					if strings.HasPrefix(s, "c.Signature[") {
 						monitorFinding(c, jr, p, "a path reads a byte of the signature value ("+s+")")
+						if strings.HasPrefix(jr.Job.Label, "sweep/LintCertificateEx") {
+							// the entry point's own read: whatever stubs the lints that ran afterwards passed through
+							// do not bear on it
+							c.Findings[len(c.Findings)-1].Confirmed = "yes"
+						}
 						break
 					}
 					if strings.HasPrefix(s, "c.Raw[") {
